@@ -11,6 +11,7 @@ CONSTANTS MaxEp = 2
           Unreliable = FALSE
           AllowExit = FALSE
           MaxSockFail = 0
+          MaxRF = 0
           KF_Overtake = TRUE
 PROPERTY Heals
 CHECK_DEADLOCK FALSE
